@@ -27,6 +27,14 @@ func uglify(src string, kind int) (string, string) {
 		return strings.ReplaceAll(strings.ReplaceAll(src, "(", "( "), " {\n", "  {   \n"), "odd-spacing"
 	case 6:
 		return "// Copyright header\n\n//go:build linux || !windows\n\n/* odd\n   block */\n" + src, "header-buildtag-comments"
+	case 8:
+		return "\xEF\xBB\xBF" + src, "utf8-bom"
+	case 9:
+		return "\xEF\xBB\xBF" + strings.ReplaceAll(src, "\n", "\r\n"), "utf8-bom-crlf"
+	case 10:
+		return src + "\nvar longLine = \"" + strings.Repeat("0123456789abcdef", 4200) + "\" // a line longer than 64 KiB\n", "very-long-line"
+	case 11:
+		return strings.Replace(src, "package p\n", "package p\n\n//line other.go:100\nvar lineDirective = 1 \t \n", 1), "line-directive-trailing-space"
 	default:
 		return strings.Replace(src, "package p\n", "package p\n\nimport (\n\t\"os\"\n\t\"fmt\"\n\n\tb \"a/z\"\n\t\"a/a\"\n)\n\nvar _ = fmt.Sprint\nvar _ = os.Exit\nvar _ = b.X\n", 1), "unsorted-imports"
 	}
@@ -37,7 +45,7 @@ func init() {
 		ID:    "C06",
 		Level: "exploration",
 		Rule: "cases: CLI runs over 3-8 files in which some or all files cannot match: (A) every pattern is anchored on an identifier that occurs in no file, (B) a matching non-idempotent patch with unmatched files between matched ones, " +
-			"(C) package-clause or import guard fails although the code pattern occurs, (D) near-miss-only files; files in 8 layouts (gofmt-like, spaces for tabs, CRLF, no final newline, extra blank lines, odd spacing, header+build tag+block comment, unsorted imports) and standard-library files; " +
+			"(C) package-clause or import guard fails although the code pattern occurs, (D) near-miss-only files; files in 12 layouts (gofmt-like, spaces for tabs, CRLF, no final newline, extra blank lines, odd spacing, header+build tag+block comment, unsorted imports, UTF-8 byte order mark, BOM+CRLF, a line longer than 64 KiB, //line directive with trailing white space) and standard-library files; " +
 			"modes {in place, --diff, --print-only} x -v x --skip-import-processing x 1-2 patch files; every 8th run under strace -f. Monitors: digest (bytes, inode, mtime, ctime, mode) of every unmatched file before/after, stdout/stderr/exit oracle, " +
 			"strace event log free of open-for-write/write/rename/unlink/chmod/utimensat on unmatched files, and Apply(src)==src through the library. non-trivial = unmatched file is not gofmt-clean or sits in a run with a matching file; distinct = (layout, mode+flags, reason for no match, position in run).",
 		Assumptions: []string{"'cannot match' is established without the reference model: anchor identifier absent from the file's text, guard on a package name / import path the file does not have, or an extra literal argument"},
@@ -116,7 +124,11 @@ func runC06(ctx *core.Ctx, idx int) *core.Result {
 		layout := "corpus"
 		if src == "" {
 			src = g.File(gen.FileOpts{Plants: plants})
-			src, layout = uglify(src, r.Intn(8))
+			lk := r.Intn(12)
+			if lk == 10 && matched {
+				lk = 0 // --diff on a rewritten file with a line > 64 KiB is the known finding C12/diff-mode/line-too-long
+			}
+			src, layout = uglify(src, lk)
 			if !gen.Parses(src) {
 				src, layout = g.File(gen.FileOpts{Plants: plants}), "gofmt-like"
 			}
